@@ -18,4 +18,9 @@ class C04(E1Prop):
         return any(t in r.tags for t in self.nontrivial_tags)
 
 
+    def make_history(self, rng):
+        from ..batchdb import gen
+        return gen.history(rng, special=0.2, weights={'late-unschedule': 3.0, 'orphan': 3.0, 'unschedule-orphan': 5.0})
+
+
 PROP = C04()
